@@ -401,6 +401,8 @@ FIXED_LEN = {
 def header_class(stream, pos, direction):
   """Classifies the header found at `pos` of a possibly hostile stream: what, if anything, is wrong
   with it at the framing level.  direction is the list of types the receiver handles."""
+  if pos < 0 or pos > len(stream):
+    return "outside-stream"
   if len(stream) - pos < 4:
     return "truncated-header"
   ver, t, length = stream[pos], stream[pos + 1], (stream[pos + 2] << 8) | stream[pos + 3]
